@@ -2,6 +2,7 @@
     VERIF_KILL_AT_SAVE=<n>:<before|after>   SIGKILL this process right before the n-th state write
                                             or right after its rename into place
     VERIF_COUNT_SAVES=<file>                write the number of state saves of this invocation
+    VERIF_BEFORE_INSTALL=<shell command>    run once right before LocalShare.installSharedPackage (forced install race)
 Everything must sit under the __main__ guard: Bob's forkserver re-imports the main module."""
 import os, sys, signal
 
@@ -31,6 +32,21 @@ def main():
                 os.kill(os.getpid(), signal.SIGKILL)
         return r
     st._BobState._BobState__save = save
+    before_install = os.environ.get('VERIF_BEFORE_INSTALL')
+    if before_install:
+        # a competing project installs the same shared package right before our installSharedPackage() runs (forced race)
+        import subprocess
+        import bob.share as sh
+        orig_install = sh.LocalShare.installSharedPackage
+        done = []
+
+        def install(self, *a, **k):
+            if not done:
+                done.append(1)
+                env = dict(os.environ); env.pop('VERIF_BEFORE_INSTALL', None)
+                subprocess.run(before_install, shell=True, env=env, stdout=subprocess.DEVNULL, stderr=subprocess.DEVNULL)
+            return orig_install(self, *a, **k)
+        sh.LocalShare.installSharedPackage = install
     from bob.scripts import bob
     sys.argv = [os.path.join(os.environ['VERIF_REPO_DIR'], 'bob')] + sys.argv[1:]
     sys.exit(bob(os.path.join(os.environ['VERIF_REPO_DIR'], 'bob')))
